@@ -6,6 +6,7 @@ import MpVerif.C20.LemmasEscape
 import MpVerif.C20.LemmasGen
 import MpVerif.C20.LemmasUtf8
 import MpVerif.C20.LemmasExporter
+import MpVerif.C20.LemmasExporterNL
 /-!
 # C20 — The exported reformulation graph is well-formed and complete
 
@@ -543,6 +544,37 @@ theorem C20_exporter_node_size_le_item_count (cfg : Cfg) (hn : CfgOk cfg) (evs :
     simp only [hs, Bool.and_eq_true, decide_eq_true_eq] at h
     exact ⟨sz, rfl, h.1, h.2⟩
 
+/-! ### NL item records and objective records (round 7) -/
+
+/-- **every NL objective, NL constraint and NL common expression appears**: the records `ExportObj` / `ExportAlgCon` /
+    `ExportLogCon` / `ExportCommonExpr` write are exactly `0 .. n-1` of each kind, in order, for every event sequence
+    (`n` = number of items flattened; algebraic/logical flag as exported) -/
+theorem C20_exporter_nl_items (cfg : Cfg) (evs : List Ev) :
+    let s := xevs cfg {} evs
+    s.out.filter isNlObj = (List.range s.nlObjs).map Rec.nlObj ∧
+    s.out.filter isNlCon = (List.range s.nlCons.length).map (fun k => Rec.nlCon k (s.nlCons.getD k false)) ∧
+    s.out.filter isNlDef = (List.range s.nlDefs).map Rec.nlDefVar := by
+  intro s
+  have h := ninv_run cfg evs {} ninv_init
+  exact ⟨h.nlobjs, h.nlcons, h.nldefs⟩
+
+/-- **every flat objective appears and none beyond; after the push the LAST record of each objective shows the objective as
+    it is at that time**, i.e. what `PushObjectivesTo` hands to the ModelAPI — also when it was rewritten in place after its
+    creation (`Ev.setObj`, the conic reformulation of seeded change C20-4) -/
+theorem C20_exporter_objectives (cfg : Cfg) (evs : List Ev) :
+    let s := xevs cfg {} evs
+    (∀ i, i < s.objs.length → ∃ o, Rec.obj i o ∈ s.out) ∧ (∀ i o, Rec.obj i o ∈ s.out → i < s.objs.length) ∧
+    (s.finished = true → ∀ i o, s.objs[i]? = some o → lastObj s.out i = some o) := by
+  intro s
+  have h := ninv_run cfg evs {} ninv_init
+  exact ⟨h.objs1, h.objs2, h.objfin⟩
+
+/-- in the vocabulary of `WellFormed.dl_obj_last`: the file splits as `pre ++ obj i o :: post` with no later record of `i` -/
+theorem C20_exporter_objective_last_record (cfg : Cfg) (evs : List Ev) (i : Nat) (o : ObjInfo)
+    (hfin : (xevs cfg {} evs).finished = true) (hio : (xevs cfg {} evs).objs[i]? = some o) :
+    ∃ pre post, (xevs cfg {} evs).out = pre ++ Rec.obj i o :: post ∧ ∀ o', Rec.obj i o' ∉ post :=
+  lastObj_spec _ i o ((C20_exporter_objectives cfg evs).2.2 hfin i o hio)
+
 /-- a concrete history: two keepers, `_abs 0` reformulated into two `_linge`, one `_linrange` delivered; the event with a bad
     index and the link whose endpoint `_linge [0,1]` is not (yet) made of handed-out ranges are rejected -/
 def exCfg : Cfg := ⟨[cl!"_linrange", cl!"_linge", cl!"_abs"], fun _ => 3, fun ty i => ty ++ (toString i).toList, [cl!"src_cons()"]⟩
@@ -561,5 +593,13 @@ example : CfgOk exCfg := by
   refine ⟨by decide, ?_, ?_⟩
   · intro ty h; simp [exCfg] at h; rcases h with h | h | h <;> subst h <;> decide
   · intro n h; simp [exCfg] at h; subst h; decide
+
+/-- non-vacuity (round 7): a quadratic objective rewritten to a linear one before the push; NL items of all kinds -/
+def exEvs2 : List Ev :=
+  [.nlDefVar, .nlObj, .addObj ⟨0, [], [0, 1], [0, 1]⟩, .nlCon false, .nlCon true,
+   .setObj 0 ⟨0, [3], [], []⟩, .setObj 5 ⟨0, [], [], []⟩, .finish]
+example : (xevs exCfg {} exEvs2).rejected = 1 ∧ lastObj (xevs exCfg {} exEvs2).out 0 = some ⟨0, [3], [], []⟩
+    ∧ (xevs exCfg {} exEvs2).out.filter isNlCon = [.nlCon 0 false, .nlCon 1 true]
+    ∧ (xevs exCfg {} exEvs2).out.filter isObj = [.obj 0 ⟨0, [], [0, 1], [0, 1]⟩, .obj 0 ⟨0, [3], [], []⟩] := by decide
 
 end MpVerif.C20
